@@ -553,19 +553,29 @@ def run (sem : Sem σ δ) (s : RState σ δ) : List Op → RState σ δ
 
 /-! ## The resource thread (`scheduler.rs`, `run_resource_loop`) -/
 
+/-- The restart-signal block of the prologue of `run_resource_loop`: an external restart request
+`m` is served by `runtime.restart(m)` followed by `runtime.load_retain_store()`, whose result is
+`loadErr` (`none` = `Ok`; what a successful load does to the variables is part of `reinit`, C09).
+An error ends the thread in `ResourceState::Faulted` with `last_error = e`.
+
+NOTE (finding C08-runner-restart-failure): that error path does NOT go through `apply_fault` —
+nothing is latched and no safe state is applied whatever the fault policy.  The model follows the
+code.  (`restart` itself is assumed to succeed; its failure takes the same path.) -/
+def runnerRestartSignal (sem : Sem σ δ) (s : RState σ δ) (m : RestartMode) (loadErr : Option Err) :
+    PRes σ δ :=
+  { st := (step sem s (.restart m)).st, evs := [], err := loadErr }
+
 /-- One iteration of `run_resource_loop` after its prologue (stop flag, commands, restart signal,
 pause): `set_current_time(now)`, `execute_cycle()`, then — only if the cycle succeeded —
 `simulation.apply_post_cycle(now, &runtime)` whose result is `post` (`none` = `Ok` or no simulation
-controller), then the error branch (policy `restart` ⇒ warm restart and `continue`, otherwise
-`ResourceState::Faulted`, `last_error` and `break`), then the watchdog branch (`wdEnabled`, and
-`over` = the wall-clock duration of the cycle exceeded the timeout: action `restart` ⇒ warm
-restart, otherwise `watchdog_timeout()`, `Faulted`, `break`).
+controller; an error is turned into `runtime.simulation_fault(err.to_string())`, i.e. latched
+through `apply_fault` with the fault policy's decision — /repo fix 560796d), then the error branch
+(policy `restart` ⇒ warm restart and `continue`, otherwise `ResourceState::Faulted`, `last_error`
+and `break`), then the watchdog branch (`wdEnabled`, and `over` = the wall-clock duration of the
+cycle exceeded the timeout: action `restart` ⇒ warm restart, otherwise `watchdog_timeout()`,
+`Faulted`, `break`).
 Result: new state, events, `some e` iff the thread ended in `Faulted` with `last_error = e`.
-`restart` is assumed to succeed.
-
-NOTE (finding C08-runner-post-cycle): an error of `apply_post_cycle` takes the error branch
-WITHOUT `apply_fault` — `apply_post_cycle` only has `&Runtime`, so nobody latches the fault or
-applies the safe state.  The model follows the code. -/
+`restart` is assumed to succeed. -/
 def runnerIter (sem : Sem σ δ) (s : RState σ δ) (t : Int) (wdEnabled over : Bool) (post : Option Err) :
     PRes σ δ :=
   let r := executeCycle sem { s with now := t }
@@ -575,10 +585,11 @@ def runnerIter (sem : Sem σ δ) (s : RState σ δ) (t : Int) (wdEnabled over : 
     else { st := r.st, evs := r.evs, err := some e }
   | none =>
     match post with
-    | some e =>
-      if r.st.policy = .restart then
-        { st := (step sem r.st (.restart .warm)).st, evs := r.evs, err := none }
-      else { st := r.st, evs := r.evs, err := some e }
+    | some _ =>
+      let f := applyFault sem r.st .simulationFault (FaultDecision.fromFaultPolicy r.st.policy)
+      if f.st.policy = .restart then
+        { st := (step sem f.st (.restart .warm)).st, evs := r.evs ++ f.evs, err := none }
+      else { st := f.st, evs := r.evs ++ f.evs, err := some .simulationFault }
     | none =>
       if wdEnabled && over then
         if r.st.wdAction = .restart then
